@@ -129,8 +129,9 @@ func runExec(c *Ctx) {
 			nm := core.CalleeName(cc)
 			if nm == core.RVCall || nm == "(reflect.Value).CallSlice" {
 				c.R.Func(core.FuncName(f))
-				c.R.Add("EXEC-X1", core.FuncName(f)+"|reflect.Value.Call", core.FuncName(f), p.InstrPos(ci), f == exec,
-					"wrapped user functions are invoked (reflect.Value.Call) only by the executor", ternary(f == exec, "in the executor", "reflective call outside the executor"))
+				inExecutor := f == exec || (p.PrivateHelper(f) && p.InRegion(f, exec) && c.onlyReachedFrom(f, exec))
+				c.R.Add("EXEC-X1", core.FuncName(f)+"|reflect.Value.Call", core.FuncName(f), p.InstrPos(ci), inExecutor,
+					"wrapped user functions are invoked (reflect.Value.Call) only by the executor", ternary(inExecutor, "in the executor", "reflective call outside the executor"))
 				continue
 			}
 			if cc.IsInvoke() || cc.StaticCallee() != nil {
@@ -242,13 +243,28 @@ func runExec(c *Ctx) {
 			"no store replacing a function vertex's Func found in the planner")
 	} else {
 		cp, isAlloc := zstore.Val.(*ssa.Alloc)
+		if !isAlloc {
+			// `v.Func = v.Func.standIn()`: the fresh copy is made by a private helper of the Func being replaced
+			var allocs []*ssa.Alloc
+			other := false
+			for _, sv := range p.ISources(zstore.Val) {
+				if al, ok := sv.(*ssa.Alloc); ok {
+					allocs = append(allocs, al)
+				} else {
+					other = true
+				}
+			}
+			if len(allocs) == 1 && !other {
+				cp, isAlloc = allocs[0], true
+			}
+		}
 		copyOK, bodyOK := false, false
 		if isAlloc {
 			// *copy = *v.Func
 			for _, ref := range *cp.Referrers() {
 				if st, ok := ref.(*ssa.Store); ok && st.Addr == ssa.Value(cp) {
 					if ld, ok := st.Val.(*ssa.UnOp); ok {
-						if fr, ok := core.AsFieldLoad(ld.X); ok && fr.Owner == kinds.Func {
+						if fr, ok := core.AsFieldLoad(p.Bind(ld.X)); ok && fr.Owner == kinds.Func {
 							copyOK = true
 						}
 					}
@@ -565,20 +581,33 @@ func runOnce(c *Ctx, exec *ssa.Function, fnField, onceField, memoField string) {
 		c.R.Undecided("ONCE-O1", "fields", "Func", "-", fmt.Sprintf("run-once flag/memo fields of Func not identified (flag=%q memo=%q)", onceField, memoField))
 		return
 	}
+	// the executor together with its private steps (memo accessors, input-struct builder, invoke step …)
 	var rv ssa.CallInstruction
-	for _, ci := range core.Calls(exec, core.RVCall) {
+	for _, ci := range p.RegionCalls(exec, core.RVCall) {
 		rv = ci
 	}
 	if rv == nil {
 		return
 	}
+	anchor1 := func(in ssa.Instruction) ssa.Instruction {
+		as, _ := p.Anchors(in, exec)
+		if len(as) == 1 {
+			return as[0]
+		}
+		return nil
+	}
+	ofExecRecv := func(base ssa.Value) bool { return p.Bind(core.Strip(base)) == ssa.Value(exec.Params[0]) }
 	isOnceLoad := func(v ssa.Value) bool {
 		fr, ok := core.AsFieldLoad(v)
-		return ok && fr.Owner == "Func" && fr.Field == onceField && core.Strip(fr.Base) == ssa.Value(exec.Params[0])
+		return ok && fr.Owner == "Func" && fr.Field == onceField && ofExecRecv(fr.Base)
 	}
 	isMemoLoad := func(v ssa.Value) bool {
 		fr, ok := core.AsFieldLoad(v)
-		return ok && fr.Owner == "Func" && fr.Field == memoField && core.Strip(fr.Base) == ssa.Value(exec.Params[0])
+		return ok && fr.Owner == "Func" && fr.Field == memoField && ofExecRecv(fr.Base)
+	}
+	isMemoDeref := func(v ssa.Value) bool {
+		ld, ok := v.(*ssa.UnOp)
+		return ok && ld.Op == token.MUL && (isMemoLoad(ld.X) || isMemoLoad(v))
 	}
 	// O1: a return of the memo, guarded exactly by (once, memo present), decided before the call
 	var cachedRet *ssa.Return
@@ -587,11 +616,10 @@ func runOnce(c *Ctx, exec *ssa.Function, fnField, onceField, memoField string) {
 		if len(r.Results) != 1 {
 			continue
 		}
-		// returns *f.memo (pointer memo) or f.memo (value memo)
-		v := r.Results[0]
+		// returns *f.memo (pointer memo) or f.memo (value memo), possibly through an accessor `memo() (Result, bool)`
 		isMemo := false
-		if ld, ok := v.(*ssa.UnOp); ok && ld.Op == token.MUL {
-			if isMemoLoad(ld.X) || isMemoLoad(v) {
+		for _, sv := range p.ISources(r.Results[0]) {
+			if isMemoDeref(sv) {
 				isMemo = true
 			}
 		}
@@ -599,7 +627,7 @@ func runOnce(c *Ctx, exec *ssa.Function, fnField, onceField, memoField string) {
 			continue
 		}
 		cachedRet = r
-		lits := core.Lits(core.Guards(r.Block()))
+		lits := p.ExpandLits(core.Lits(core.Guards(r.Block())))
 		onceG, memoG := false, false
 		extra := ""
 		for _, l := range lits {
@@ -619,7 +647,8 @@ func runOnce(c *Ctx, exec *ssa.Function, fnField, onceField, memoField string) {
 		"when the run-once flag is set and a memo exists, the executor returns the memoized Result — decided by the presence of the memo itself, not by its contents", why)
 	// the call cannot be reached when both hold: the cached-return block's branch dominates the call
 	dom := false
-	if cachedRet != nil {
+	rvA := anchor1(rv)
+	if cachedRet != nil && rvA != nil {
 		// the If that leads to the cached return
 		b := cachedRet.Block()
 		gs := core.Guards(b)
@@ -628,10 +657,10 @@ func runOnce(c *Ctx, exec *ssa.Function, fnField, onceField, memoField string) {
 			// every test of the conjunction is either evaluated on all paths to the call, or only after an
 			// earlier test of the conjunction already held
 			top := g.At.Block()
-			if !top.Dominates(rv.Block()) {
+			if !top.Dominates(rvA.Block()) {
 				chained := false
 				for _, g2 := range gs {
-					if g2.At != g.At && g2.At.Block().Dominates(top) && g2.At.Block().Dominates(rv.Block()) {
+					if g2.At != g.At && g2.At.Block().Dominates(top) && g2.At.Block().Dominates(rvA.Block()) {
 						chained = true
 					}
 				}
@@ -641,16 +670,16 @@ func runOnce(c *Ctx, exec *ssa.Function, fnField, onceField, memoField string) {
 			}
 		}
 		// and the call is not reachable from the cached-return block
-		dom = dom && !core.Reachable(b, rv.Block(), nil)
+		dom = dom && !core.Reachable(b, rvA.Block(), nil)
 	}
 	c.R.Add("ONCE-O1", "executor|check-before-call", "executor", p.InstrPos(rv), dom,
 		"the memo check is evaluated on every path before the wrapped function is called", fmt.Sprintf("ok=%v", dom))
 
 	// O2: under once, the memo store happens on every path from the call to the return, and stores the returned Result
 	var mstore *ssa.Store
-	core.Instrs(exec, func(in ssa.Instruction) {
+	p.RegionInstrs(exec, func(in ssa.Instruction) {
 		if st, ok := in.(*ssa.Store); ok {
-			if fr, ok := core.AsFieldAddr(st.Addr); ok && fr.Owner == "Func" && fr.Field == memoField && core.Strip(fr.Base) == ssa.Value(exec.Params[0]) {
+			if fr, ok := core.AsFieldAddr(st.Addr); ok && fr.Owner == "Func" && fr.Field == memoField && ofExecRecv(fr.Base) {
 				mstore = st
 			}
 		}
@@ -659,9 +688,13 @@ func runOnce(c *Ctx, exec *ssa.Function, fnField, onceField, memoField string) {
 		c.R.Add("ONCE-O2", "executor|memo-store", "executor", p.Pos(exec.Pos()), false, "under the run-once flag the Result of the first execution is memoized", "no store to the memo field in the executor")
 		return
 	}
-	lits := core.Lits(core.Guards(mstore.Block()))
+	lits := p.ExpandLits(p.ILits(mstore.Block()))
 	onlyOnce := len(lits) > 0
 	hasOnce := false
+	var rvLits []core.Lit
+	if rvA != nil {
+		rvLits = p.ExpandLits(p.ILits(rv.Block()))
+	}
 	for _, l := range lits {
 		if l.Kind == "bool" && l.Pol && isOnceLoad(l.Of) {
 			hasOnce = true
@@ -669,8 +702,19 @@ func runOnce(c *Ctx, exec *ssa.Function, fnField, onceField, memoField string) {
 		}
 		// guards inherited from before the call (buildErr == nil, not cached) are fine if they also guard the call
 		inherited := false
-		for _, l2 := range core.Lits(core.Guards(rv.Block())) {
+		for _, l2 := range rvLits {
 			if l2.String() == l.String() {
+				inherited = true
+			}
+		}
+		// `r.buildErr == nil` on the Result about to be memoised: true for every Result of an execution (RESULTLIT:
+		// a Result literal sets exactly one of outputs / resolution error)
+		if l.Kind == "cmp" && l.Op == token.EQL && l.Pol && (core.IsNilConst(l.X) || core.IsNilConst(l.Y)) {
+			v := l.X
+			if core.IsNilConst(v) {
+				v = l.Y
+			}
+			if fr, ok := core.AsFieldLoad(v); ok && fr.Owner == "Result" && fr.Field == "buildErr" {
 				inherited = true
 			}
 		}
@@ -678,22 +722,66 @@ func runOnce(c *Ctx, exec *ssa.Function, fnField, onceField, memoField string) {
 			onlyOnce = false
 		}
 	}
-	after := core.InstrDominates(rv, mstore)
+	after := false
+	if stA := anchor1(mstore); stA != nil && rvA != nil {
+		if stA == rvA {
+			after = rv.Parent() == mstore.Parent() && core.InstrDominates(rv, mstore)
+		} else {
+			after = core.InstrDominates(rvA, stA)
+		}
+	}
 	c.R.Add("ONCE-O2", "executor|memo-store", "executor", p.InstrPos(mstore), onlyOnce && hasOnce && after,
 		"after the wrapped function ran, the Result is memoized whenever the run-once flag is set (no other condition)",
 		fmt.Sprintf("after-call=%v guarded-by-flag=%v no-extra-condition=%v", after, hasOnce, onlyOnce), core.LitStrings(lits)...)
 	// what is stored is (the address of) the Result that is returned
 	same := false
+	isStored := func(v ssa.Value) bool {
+		if v == mstore.Val {
+			return true
+		}
+		if ld, ok := v.(*ssa.UnOp); ok && ld.Op == token.MUL && ld.X == mstore.Val {
+			return true
+		}
+		// the helper's Result parameter whose spill is what gets stored
+		if al, ok := mstore.Val.(*ssa.Alloc); ok {
+			if sv := core.SingleStore(al); sv != nil && sv == v {
+				return true
+			}
+		}
+		return false
+	}
+	// the function holding the store hands the stored Result back
+	helperReturnsStored := false
+	for _, hr := range core.Returns(mstore.Parent()) {
+		for _, v := range hr.Results {
+			if isStored(v) {
+				helperReturnsStored = true
+			}
+			for _, sv := range core.Sources(v) {
+				if isStored(sv) {
+					helperReturnsStored = true
+				}
+			}
+		}
+	}
 	for _, r := range core.Returns(exec) {
-		if !core.InstrDominates(rv, r) {
+		if rvA == nil || !(core.InstrDominates(rvA, r) || rvA == ssa.Instruction(r)) {
 			continue
 		}
 		for _, v := range r.Results {
-			if ld, ok := v.(*ssa.UnOp); ok && ld.Op == token.MUL && ld.X == mstore.Val {
+			if isStored(v) {
 				same = true
 			}
-			if v == mstore.Val {
-				same = true
+			for _, sv := range p.ISources(v) {
+				if isStored(sv) {
+					same = true
+				}
+			}
+			// `return f.remember(result)`: the step that memoises returns what it memoised
+			for _, sv := range core.Sources(v) {
+				if cl, ok := sv.(*ssa.Call); ok && cl.Common().StaticCallee() == mstore.Parent() && mstore.Parent() != exec && helperReturnsStored {
+					same = true
+				}
 			}
 		}
 	}
@@ -731,6 +819,10 @@ func runOnce(c *Ctx, exec *ssa.Function, fnField, onceField, memoField string) {
 		})
 	}
 	c.R.Add("ONCE-O4", "NewFunc|copies-flag", "NewFunc", posOf(p, nf), copied, "NewFunc copies the builder's run-once flag into the Func", fmt.Sprintf("ok=%v", copied))
+	// the executor and its private steps (memo accessors that only it reaches)
+	inExec := func(f *ssa.Function) bool {
+		return f == exec || (p.PrivateHelper(core.Outer(f)) && p.InRegion(f, exec) && c.onlyReachedFrom(core.Outer(f), exec))
+	}
 	// the flag and memo are written nowhere else (flag: only the constructor literal)
 	stray := ""
 	for _, f := range p.ArgFuncs() {
@@ -739,7 +831,7 @@ func runOnce(c *Ctx, exec *ssa.Function, fnField, onceField, memoField string) {
 				if fr, ok := core.AsFieldAddr(st.Addr); ok && fr.Owner == "Func" && fr.Field == onceField && !p.FreshIn(st.Addr) {
 					stray = core.FuncName(f) + " at " + p.InstrPos(in)
 				}
-				if fr, ok := core.AsFieldAddr(st.Addr); ok && fr.Owner == "Func" && fr.Field == memoField && f != exec && !p.FreshIn(st.Addr) {
+				if fr, ok := core.AsFieldAddr(st.Addr); ok && fr.Owner == "Func" && fr.Field == memoField && !inExec(f) && !p.FreshIn(st.Addr) {
 					stray = core.FuncName(f) + " at " + p.InstrPos(in)
 				}
 			}
@@ -749,7 +841,7 @@ func runOnce(c *Ctx, exec *ssa.Function, fnField, onceField, memoField string) {
 	// O5: the memo is consulted nowhere but in the executor (a shortcut elsewhere would bypass resolution)
 	reader := ""
 	for _, f := range p.ArgFuncs() {
-		if f == exec {
+		if inExec(f) {
 			continue
 		}
 		core.Instrs(f, func(in ssa.Instruction) {
@@ -766,6 +858,33 @@ func runOnce(c *Ctx, exec *ssa.Function, fnField, onceField, memoField string) {
 	}
 	c.R.Add("ONCE-O5", "memo|read-only-by-executor", "(package)", "-", reader == "", "the run-once memo is read only by the executor", ternary(reader == "", "no other reader", "also read by "+reader))
 	_ = strings.Join
+}
+
+// onlyReachedFrom: every static call of helper h comes from top or from another private helper that is itself only
+// reached from top (so h runs only as a step of top).
+func (c *Ctx) onlyReachedFrom(h, top *ssa.Function) bool {
+	seen := map[*ssa.Function]bool{}
+	var ok func(g *ssa.Function, d int) bool
+	ok = func(g *ssa.Function, d int) bool {
+		if g == top {
+			return true
+		}
+		if seen[g] || d > 4 || !c.P.PrivateHelper(g) {
+			return false
+		}
+		seen[g] = true
+		sites := c.P.Callers(g)
+		if len(sites) == 0 {
+			return false
+		}
+		for _, s := range sites {
+			if !ok(core.Outer(s.Parent()), d+1) {
+				return false
+			}
+		}
+		return true
+	}
+	return ok(h, 0)
 }
 
 func posOf(p *core.Prog, f *ssa.Function) string {
